@@ -20,7 +20,7 @@ _built = {}
 _build_lock = __import__('threading').Lock()
 
 
-OPTIONAL_VARIANTS = ('strict-c99', 'short-enums', 'ilp32', 'msan', 'ndebug', 'unsigned-char', 'no-byteorder-macros')
+OPTIONAL_VARIANTS = ('strict-c99', 'short-enums', 'ilp32', 'msan', 'ndebug', 'unsigned-char', 'no-byteorder-macros', 'Os', 'march-native')
 
 
 def build_fieldmon(work, variant='asan'):
@@ -55,6 +55,10 @@ def _build_fieldmon(work, variant='asan'):
     if variant == 'no-byteorder-macros': # a little-endian compiler that predefines none of __BYTE_ORDER__ / __ORDER_*_ENDIAN__ (MSVC, IAR, older gcc)
         return vlib.compile_many(work, 'fieldmon_no_byteorder_macros', src, ['-O2', '-g', '-U__BYTE_ORDER__', '-U__ORDER_LITTLE_ENDIAN__',
                                                                              '-U__ORDER_BIG_ENDIAN__', '-U__ORDER_PDP_ENDIAN__'])
+    if variant == 'Os':                  # size optimisation (__OPTIMIZE_SIZE__ paths)
+        return vlib.compile_many(work, 'fieldmon_Os', src, ['-Os', '-g'])
+    if variant == 'march-native':        # whatever vector extensions this machine has
+        return vlib.compile_many(work, 'fieldmon_march_native', src, ['-O2', '-g', '-march=native'])
     if variant == 'unsigned-char':       # plain char is unsigned on ARM/AArch64/PowerPC/RISC-V Linux targets
         return vlib.compile_many(work, 'fieldmon_unsigned_char', src, ['-O2', '-g', '-funsigned-char'])
     if variant == 'msan':                # clang MemorySanitizer: results that depend on uninitialised memory
@@ -75,7 +79,7 @@ def run_modes(obs, binary, jobs, seed, tag=None):
     vlib.run_parallel(one, jobs)
 
 
-CONFIG_VARIANTS = ('strict-c99', 'short-enums', 'ilp32', 'ndebug', 'unsigned-char', 'no-byteorder-macros', 'msan')
+CONFIG_VARIANTS = ('strict-c99', 'short-enums', 'ilp32', 'ndebug', 'unsigned-char', 'no-byteorder-macros', 'Os', 'march-native', 'msan')
 
 
 def config_variants(obs, work, jobs, seed, variants=CONFIG_VARIANTS):
@@ -109,7 +113,7 @@ ASSUME_COMMON = [
     'spec/wire.spec transcribes IEEE 1722-2016 / acf-vss.md correctly (hand-written, positions derived by summing widths)',
     'reference bit-field model (mon/vpcore.c bf_get/bf_set) is correct',
     'gcc 12 AddressSanitizer/UBSan runtime; arena write monitor sees every byte of an 8 KiB region around the PDU',
-    'additional builds of the same sources: strict -std=c99, -fshort-enums, -DNDEBUG, -funsigned-char, clang MemorySanitizer (-O0, origin tracking), and a freestanding 32-bit (ILP32) i386 executable with its own runtime layer (mon/platform_ilp32.c)',
+    'additional builds of the same sources: strict -std=c99, -fshort-enums, -DNDEBUG, -funsigned-char, -Os, -march=native, clang MemorySanitizer (-O0, origin tracking), and a freestanding 32-bit (ILP32) i386 executable with its own runtime layer (mon/platform_ilp32.c)',
     'buffer contents and 64-bit values are sampled (PRNG seeded by VERIF_SEED); fields, paths, header bits and value classes are enumerated',
 ]
 
@@ -353,7 +357,7 @@ def c17(tier, seed):
 
 BUILDERS = {'fieldmon_asan': lambda work: build_fieldmon(work, 'asan'), 'fieldmon_strict_c99': lambda work: build_fieldmon(work, 'strict-c99'),
             'fieldmon_short_enums': lambda work: build_fieldmon(work, 'short-enums'), 'fieldmon_ilp32': lambda work: build_fieldmon(work, 'ilp32'),
-            'fieldmon_ndebug': lambda work: build_fieldmon(work, 'ndebug'), 'fieldmon_no_byteorder_macros': lambda work: build_fieldmon(work, 'no-byteorder-macros'), 'fieldmon_unsigned_char': lambda work: build_fieldmon(work, 'unsigned-char'), 'fieldmon_msan': lambda work: build_fieldmon(work, 'msan')}
+            'fieldmon_ndebug': lambda work: build_fieldmon(work, 'ndebug'), 'fieldmon_Os': lambda work: build_fieldmon(work, 'Os'), 'fieldmon_march_native': lambda work: build_fieldmon(work, 'march-native'), 'fieldmon_no_byteorder_macros': lambda work: build_fieldmon(work, 'no-byteorder-macros'), 'fieldmon_unsigned_char': lambda work: build_fieldmon(work, 'unsigned-char'), 'fieldmon_msan': lambda work: build_fieldmon(work, 'msan')}
 for _cc in ('gcc', 'clang'):
     for _o in ('O0', 'O1', 'O2', 'O3'):
         BUILDERS['fieldmon_%s_%s' % (_cc, _o)] = (lambda v: (lambda work: build_fieldmon(work, v)))('%s-%s' % (_cc, _o))
